@@ -26,6 +26,9 @@ def _order_kind(repo: Repo, f: Func, e: ast.AST, depth: int = 0) -> str:
         fn = norm(e.func)
         canon = repo.canonical(f.module, e.func)
         if fn == "sorted" or canon in ("numpy.unique", "numpy.sort"):
+            # the property speaks of *token* order: a key function (str, len, ...) or reverse=True is another order
+            if fn == "sorted" and any(k.arg in ("key", "reverse") and not (isinstance(k.value, ast.Constant) and k.value.value in (None, False)) for k in e.keywords):
+                return "sorted-by-key"
             return "sorted"
         if fn in ("set", "frozenset"):
             return "unordered"
@@ -128,6 +131,9 @@ def r5_1(repo: Repo) -> RuleResult:
                     rr.bad(f, construct, "iteration order comes from parameter `%s`, which %s" % (p, "is not provably in sorted order at " + ", ".join(bad_callers) if bad_callers else "has no analysed caller"), n.lineno)
                 else:
                     rr.ok(f, construct, "order inherited from parameter `%s`, sorted at all %d fit-path call sites" % (p, n_callers), n.lineno)
+            elif kind == "sorted-by-key":
+                rr.bad(f, construct, "indices are assigned in the order of sorted(..., key=/reverse=...), not in the tokens' own sorted order: numeric tokens "
+                       "sort as strings (10 before 2), so the dictionary is not the documented one", n.lineno)
             elif kind == "unordered":
                 rr.bad(f, construct, "indices are assigned by iterating a set / unordered collection: the dictionary depends on hash order, "
                        "not on sorted token order", n.lineno)
